@@ -2,6 +2,7 @@ package main
 
 import (
 	"fmt"
+	"regexp"
 	"strings"
 	"unsafe"
 
@@ -46,6 +47,11 @@ func snapshot(n *parser.MJMLNode) string {
 	return b.String()
 }
 
+var ptrRe = regexp.MustCompile(`0x[0-9a-f]+`)
+
+// snapshotValues: the snapshot with addresses erased (for comparing two different parses of one text)
+func snapshotValues(n *parser.MJMLNode) string { return ptrRe.ReplaceAllString(snapshot(n), "P") }
+
 func safely(f func()) (panicked interface{}) {
 	defer func() {
 		if p := recover(); p != nil {
@@ -83,13 +89,12 @@ func runC16(res *Result, tier string, seed int64, replay string) {
 		d := docs[i]
 		var before, after string
 		var ast *parser.MJMLNode
+		// the reference is the tree exactly as the PARSER produced it, before anything was built or rendered from it
 		p := safely(func() {
-			rr, err := mjml.RenderWithAST(d.src)
-			if rr == nil || rr.AST == nil {
-				_ = err
-				return
+			a, err := mjml.ParseMJML(d.src)
+			if err == nil {
+				ast = a
 			}
-			ast = rr.AST
 		})
 		if p != nil || ast == nil {
 			res.Case(d.src, false)
@@ -97,6 +102,16 @@ func runC16(res *Result, tier string, seed int64, replay string) {
 			return
 		}
 		before = snapshot(ast)
+		// RenderWithAST returns the tree it parsed itself: it must print like a fresh parse (addresses aside)
+		safely(func() {
+			if rr, _ := mjml.RenderWithAST(d.src); rr != nil && rr.AST != nil {
+				if a, b := snapshotValues(rr.AST), snapshotValues(ast); a != b {
+					at := firstDiff(a, b)
+					res.Violate(Violation{Sig: "ast-mutated|RenderWithAST", Kind: "history", What: "RenderWithAST(...).AST differs from a fresh parse: …" + around(b, at) + "… became …" + around(a, at) + "…",
+						Input: map[string]string{"source": d.src, "doc": d.name}})
+				}
+			}
+		})
 		step := ""
 		check := func(name string, f func()) bool {
 			if pp := safely(f); pp != nil {
